@@ -320,6 +320,15 @@ fn gen_const(rng: &mut Rng, ty: char, rows: &[Row], col: &str) -> V {
     }
 }
 
+/// The same number as a literal of the other numeric type (where it has one).
+fn other_numeric_type(v: &V) -> V {
+    match v {
+        V::Int64(i) => V::Float64(*i as f64),
+        V::Float64(f) if f.fract() == 0.0 && f.abs() < 9.0e18 => V::Int64(*f as i64),
+        other => other.clone(),
+    }
+}
+
 pub fn gen_pred(rng: &mut Rng, rows: &[Row], depth: u32, cols: &[(&str, char)]) -> P {
     if depth > 0 && rng.chance(2, 5) {
         let a = gen_pred(rng, rows, depth - 1, cols);
@@ -341,15 +350,28 @@ pub fn gen_pred(rng: &mut Rng, rows: &[Row], depth: u32, cols: &[(&str, char)]) 
         6 | 7 => P::GtEq(col, k),
         8 => {
             let n = rng.usize(4);
-            P::In(col, (0..n).map(|_| gen_const(rng, ty, rows, c)).collect())
+            let mut list: Vec<V> = (0..n).map(|_| gen_const(rng, ty, rows, c)).collect();
+            // operand lists of mixed numeric types (the engine compares them in one common type)
+            if n >= 2 && rng.chance(1, 3) {
+                let i = rng.usize(n);
+                list[i] = other_numeric_type(&list[i]);
+            }
+            P::In(col, list)
         }
         9 => {
             let n = rng.usize(3);
             P::NotIn(col, (0..n).map(|_| gen_const(rng, ty, rows, c)).collect())
         }
         _ => {
-            let lo = gen_const(rng, ty, rows, c);
-            let hi = gen_const(rng, ty, rows, c);
+            let mut lo = gen_const(rng, ty, rows, c);
+            let mut hi = gen_const(rng, ty, rows, c);
+            if rng.chance(1, 3) {
+                if rng.chance(1, 2) {
+                    lo = other_numeric_type(&lo);
+                } else {
+                    hi = other_numeric_type(&hi);
+                }
+            }
             P::Between(col, lo, hi)
         }
     }
